@@ -475,72 +475,189 @@ func (a *cmtAnalysis) computeReaderSummaries() {
 		for _, fn := range a.funcs {
 			for _, b := range fn.Blocks {
 				for _, in := range b.Instrs {
-					switch t := in.(type) {
-					case *ssa.FieldAddr:
-						slot, isMeta, ok := a.slotOfField(t)
-						if !ok || !readNotOnlyStored(t) {
-							continue
-						}
-						var ds []nodeDesc
-						if isMeta {
-							ds = a.descsMeta(t.X, b, map[ssa.Value]bool{})
-						} else {
-							ds = a.descsNode(t.X, b, map[ssa.Value]bool{})
-						}
-						for _, d := range ds {
-							if add(fn, d, slot) {
-								changed = true
-							}
-						}
-					case ssa.CallInstruction:
-						cal := t.Common().StaticCallee()
-						if cal == nil || a.summaries[cal] == nil {
-							continue
-						}
-						for e := range a.summaries[cal] {
-							if e.param >= len(t.Common().Args) {
-								continue
-							}
-							arg := t.Common().Args[e.param]
-							var ds []nodeDesc
-							if core.NamedTypePkgName(cal.Params[e.param].Type()) == astPkgPath+".Meta" {
-								ds = a.descsMeta(arg, b, map[ssa.Value]bool{})
-							} else {
-								ds = a.descsNode(arg, b, map[ssa.Value]bool{})
-							}
-							for _, d := range ds {
-								if d.root == nil {
-									continue
-								}
-								nd := d
-								p := e.path
-								if strings.HasPrefix(p, "!") {
-									// callee narrowed its interface parameter to a kind
-									rest := p[1:]
-									kind := rest
-									if i := strings.Index(rest, "."); i >= 0 {
-										kind, p = rest[:i], rest[i:]
-									} else {
-										p = ""
-									}
-									if nd.path == "" {
-										nd.narrow = kind
-									}
-								}
-								if strings.Count(nd.path+p, ".") > 3 {
-									continue
-								}
-								nd.path += p
-								if add(fn, nd, e.slot) {
-									changed = true
-								}
-							}
+					for _, ds := range a.instrReads(fn, b, in) {
+						if add(fn, ds.d, ds.slot) {
+							changed = true
 						}
 					}
 				}
 			}
 		}
 	}
+}
+
+type descSlot struct {
+	d    nodeDesc
+	slot string
+}
+
+// instrReads: the (node description, slot) pairs instruction `in` reads, directly or through the summary of its callee.
+func (a *cmtAnalysis) instrReads(fn *ssa.Function, b *ssa.BasicBlock, in ssa.Instruction) []descSlot {
+	var out []descSlot
+	switch t := in.(type) {
+	case *ssa.FieldAddr:
+		slot, isMeta, ok := a.slotOfField(t)
+		if !ok || !readNotOnlyStored(t) {
+			return nil
+		}
+		var ds []nodeDesc
+		if isMeta {
+			ds = a.descsMeta(t.X, b, map[ssa.Value]bool{})
+		} else {
+			ds = a.descsNode(t.X, b, map[ssa.Value]bool{})
+		}
+		for _, d := range ds {
+			out = append(out, descSlot{d, slot})
+		}
+	case ssa.CallInstruction:
+		cal := t.Common().StaticCallee()
+		if cal == nil || a.summaries[cal] == nil {
+			return nil
+		}
+		for e := range a.summaries[cal] {
+			if e.param >= len(t.Common().Args) {
+				continue
+			}
+			arg := t.Common().Args[e.param]
+			var ds []nodeDesc
+			if core.NamedTypePkgName(cal.Params[e.param].Type()) == astPkgPath+".Meta" {
+				ds = a.descsMeta(arg, b, map[ssa.Value]bool{})
+			} else {
+				ds = a.descsNode(arg, b, map[ssa.Value]bool{})
+			}
+			for _, d := range ds {
+				if d.root == nil {
+					continue
+				}
+				nd := d
+				p := e.path
+				if strings.HasPrefix(p, "!") {
+					// callee narrowed its interface parameter to a kind
+					rest := p[1:]
+					kind := rest
+					if i := strings.Index(rest, "."); i >= 0 {
+						kind, p = rest[:i], rest[i:]
+					} else {
+						p = ""
+					}
+					if nd.path == "" {
+						nd.narrow = kind
+					}
+				}
+				if strings.Count(nd.path+p, ".") > 3 {
+					continue
+				}
+				nd.path += p
+				out = append(out, descSlot{nd, e.slot})
+			}
+		}
+	}
+	return out
+}
+
+// entryOf turns a description rooted at a parameter of fn into a summary entry.
+func (a *cmtAnalysis) entryOf(fn *ssa.Function, d nodeDesc, slot string) (slotEntry, bool) {
+	if d.root == nil {
+		return slotEntry{}, false
+	}
+	for i, q := range fn.Params {
+		if ssa.Value(q) == d.root {
+			path := d.path
+			if d.narrow != "" {
+				path = "!" + d.narrow + path
+			}
+			return slotEntry{i, path, slot}, true
+		}
+	}
+	return slotEntry{}, false
+}
+
+// configDependentMisses: summary entries of fn whose read is not guaranteed under every formatter configuration.
+// guaranteed(b) is the least fixpoint of: a block that reads the slot → true; a branch on a formatter option → both
+// successors guaranteed (the configuration chooses adversarially); any other branch → some successor guaranteed (the
+// data decides, e.g. `if len(comments) > 0`); return → false.
+func (a *cmtAnalysis) configDependentMisses(fn *ssa.Function) []slotEntry {
+	sum := a.summaries[fn]
+	if len(sum) == 0 || len(fn.Blocks) == 0 {
+		return nil
+	}
+	reads := map[slotEntry]map[*ssa.BasicBlock]bool{}
+	for _, b := range fn.Blocks {
+		for _, in := range b.Instrs {
+			for _, ds := range a.instrReads(fn, b, in) {
+				if e, ok := a.entryOf(fn, ds.d, ds.slot); ok {
+					if reads[e] == nil {
+						reads[e] = map[*ssa.BasicBlock]bool{}
+					}
+					reads[e][b] = true
+				}
+			}
+		}
+	}
+	var out []slotEntry
+	for e, rb := range reads {
+		if !guaranteedUnderConfig(fn, rb) {
+			out = append(out, e)
+		}
+	}
+	return out
+}
+
+// guaranteedUnderConfig: see configDependentMisses. Functions without any option-dependent branch are not judged
+// (guaranteed by definition): only the interplay with the configuration is decided here.
+func guaranteedUnderConfig(fn *ssa.Function, rb map[*ssa.BasicBlock]bool) bool {
+	isConfigCond := func(b *ssa.BasicBlock) bool {
+		cond := core.BranchCond(b)
+		if cond == nil {
+			return false
+		}
+		for x := range core.BackSlice(cond) {
+			if f := core.FieldOf(x); f != nil && strings.HasSuffix(core.FieldOwner(x), "/config.FormatConfig") {
+				return true
+			}
+		}
+		return false
+	}
+	configBlocks := map[*ssa.BasicBlock]bool{}
+	any := false
+	for _, b := range fn.Blocks {
+		if isConfigCond(b) {
+			configBlocks[b] = true
+			any = true
+		}
+	}
+	if !any {
+		return true
+	}
+	g := map[*ssa.BasicBlock]bool{}
+	for changed := true; changed; {
+		changed = false
+		for _, b := range fn.Blocks {
+			if g[b] {
+				continue
+			}
+			v := false
+			switch {
+			case rb[b]:
+				v = true
+			case len(b.Succs) == 0:
+				v = false
+			case len(b.Succs) == 2 && configBlocks[b]:
+				v = g[b.Succs[0]] && g[b.Succs[1]]
+			default:
+				for _, s := range b.Succs {
+					if g[s] {
+						v = true
+					}
+				}
+			}
+			if v {
+				g[b] = true
+				changed = true
+			}
+		}
+	}
+	return g[fn.Blocks[0]]
 }
 
 func readNotOnlyStored(fa *ssa.FieldAddr) bool {
@@ -944,6 +1061,74 @@ func runC15(c *core.Ctx) {
 	c.Extra("writer_sites", len(ws))
 	c.Extra("weakly_matched_writer_sites", weak)
 	c.Floor("cmt.slots", 150)
+
+	// ---- cmt.config: a slot a printer reads is read under every formatter configuration
+	nCfg := 0
+	for _, fn := range a.funcs {
+		if fn.Pkg == nil || fn.Pkg.Pkg.Path() != core.ModPath+"/formatter" {
+			continue
+		}
+		misses := a.configDependentMisses(fn)
+		if a.summaries[fn] != nil {
+			nCfg++
+		}
+		sort.Slice(misses, func(i, j int) bool {
+			return fmt.Sprint(misses[i]) < fmt.Sprint(misses[j])
+		})
+		for _, e := range misses {
+			pname := "?"
+			if e.param < len(fn.Params) {
+				pname = fn.Params[e.param].Name()
+			}
+			key := fmt.Sprintf("%s|%s%s.%s", core.FnName(fn), pname, e.path, e.slot)
+			c.Report("cmt.config", key, fn.Pos(), fmt.Sprintf("%s prints the %s comments of %s%s only on some settings of a formatter option: under the other setting no path reads them and every comment written there is dropped from the output", core.FnName(fn), e.slot, pname, e.path))
+		}
+		if len(misses) == 0 && a.summaries[fn] != nil {
+			c.Discharge("cmt.config", core.FnName(fn), fn.Pos(), "every slot this printer reads is read whatever the configuration")
+		}
+	}
+	c.Extra("printers_checked_for_config_dependence", nCfg)
+	// helpers that receive the comments themselves (ast.Comments parameter)
+	fcFn := prog.SSAFunc("formatter", "Formatter.formatComment")
+	for _, fn := range a.funcs {
+		if fn.Pkg == nil || fn.Pkg.Pkg.Path() != core.ModPath+"/formatter" || fn == fcFn {
+			continue
+		}
+		for _, p := range fn.Params {
+			if !isCommentsType(p.Type()) {
+				continue
+			}
+			rb := map[*ssa.BasicBlock]bool{}
+			for _, b := range fn.Blocks {
+				for _, in := range b.Instrs {
+					switch t := in.(type) {
+					case ssa.CallInstruction:
+						if cal := t.Common().StaticCallee(); cal != nil && cal.Pkg != nil && cal.Pkg.Pkg.Path() == core.ModPath+"/formatter" {
+							for _, arg := range t.Common().Args {
+								if isCommentsType(arg.Type()) && core.BackSlice(arg)[p] {
+									rb[b] = true
+								}
+							}
+						}
+					case *ssa.IndexAddr:
+						if core.BackSlice(t.X)[p] {
+							rb[b] = true
+						}
+					case *ssa.Index:
+						if core.BackSlice(t.X)[p] {
+							rb[b] = true
+						}
+					}
+				}
+			}
+			key := core.FnName(fn) + "|" + p.Name()
+			if guaranteedUnderConfig(fn, rb) {
+				c.Discharge("cmt.config", key, fn.Pos(), "the comments handed to this helper are printed whatever the configuration")
+			} else {
+				c.Report("cmt.config", key, fn.Pos(), fmt.Sprintf("%s receives comments (%s) but prints them only on some settings of a formatter option (or not at all): under the other setting they are dropped from the output", core.FnName(fn), p.Name()))
+			}
+		}
+	}
 
 	// formatComment emits every element
 	if fc := prog.SSAFunc("formatter", "Formatter.formatComment"); fc == nil {
